@@ -35,13 +35,17 @@ def ylyCand (c : YlyCtx) (y : Nat) : List Nat :=
       fillYlyYdAll cand y c.wdMask
     else cand
   -- extend by yd
-  let cand := fillYlyYd cand y r.doy c.wdMask
+  let cand := fillYlyYd cand y r.doy r.dow c.wdMask (nm > 0)
   -- extend by ymd; in presence of BYEASTER the months and days act as a filter
-  if !r.easter.isEmpty then fillYlyEastr cand y r.easter r.mon r.dom c.wdMask
-  else if nm = 0 ∧ nd = 0 then cand
-  else if nm = 0 then fillYlyYmdAllM cand y c.ds c.wdMask
-  else if nd = 0 then fillYlyYmdAllD cand y c.ms c.wdMask
-  else fillYlyYmd cand y c.ms c.ds c.wdMask
+  let cand :=
+    if !r.easter.isEmpty then fillYlyEastr cand y r.easter r.mon r.dom c.wdMask
+    else if nm = 0 ∧ nd = 0 then cand
+    else if nm = 0 then fillYlyYmdAllM cand y c.ds r.dow c.wdMask
+    else if nd = 0 then fillYlyYmdAllD cand y c.ms c.wdMask
+    else fillYlyYmd cand y c.ms c.ds r.dow c.wdMask
+  -- weeks and year days have been expanded on their own account, the parts are meant to limit one another
+  if r.easter.isEmpty ∧ (!r.wk.isEmpty ∨ !r.doy.isEmpty) then limCand cand y r.mon r.dom r.wk r.doy c.pdow
+  else cand
 
 /-- `for (res = 0, tries = 64; res < nti && --tries; y += rr->inter) { … }`.
 `tries` is the value before the loop condition decrements it. -/
@@ -81,9 +85,9 @@ def fillYly (r : Rule) (proto : Inst) (nti : Nat) : Option (List Inst) :=
     let ds := r.dom.take 62
     let ds := if ds.isEmpty ∧ ymdp ∧ proto.d ≠ 0 then [(proto.d : Int)] else ds
     let wdMask := wdMaskOf r.dow
-    -- BYWEEKNO on its own, the weekday is DTSTART's then
+    -- BYWEEKNO without anything to pick the day, the weekday is DTSTART's then
     let pdow : List Int :=
-      if wdMask = 0 ∧ !r.wk.isEmpty ∧ ms.isEmpty ∧ ds.isEmpty ∧ r.doy.isEmpty ∧ proto.m ≠ 0 ∧ proto.m ≤ 12 then
+      if wdMask = 0 ∧ !r.wk.isEmpty ∧ ds.isEmpty ∧ r.doy.isEmpty ∧ proto.m ≠ 0 ∧ proto.m ≤ 12 then
         [(ymdGetWday proto.y proto.m proto.d : Int)]
       else []
     -- `if ((dvalue > 0 || bday_p && !neg_p) && rr->inter <= y) y -= rr->inter;` go back a whole interval
